@@ -413,6 +413,23 @@ Definition doCapNew (c : cfg) (s : st) (args : list str) : R :=
   end.
 
 (* ---- AUTHENTICATE ---- *)
+(* ircutils.authenticate_generator on the (base64) string:
+     for n in range(0, len(authstring)+1, AUTHENTICATE_CHUNK_SIZE):
+         chunk = authstring[n:n+AUTHENTICATE_CHUNK_SIZE] or '+'
+         yield chunk
+   one iteration per multiple of the chunk size that is <= len: a full chunk is
+   followed by another iteration, a short (possibly empty -> '+') one is the last *)
+Fixpoint auth_gen_aux (fuel : nat) (s : str) : list str :=
+  match fuel with
+  | O => []
+  | S f =>
+      let chunk := firstn gen.T08.AUTHENTICATE_CHUNK_SIZE s in
+      (match chunk with [] => s_PLUS | _ => chunk end) ::
+      (if Nat.ltb (length s) gen.T08.AUTHENTICATE_CHUNK_SIZE then []
+       else auth_gen_aux f (skipn gen.T08.AUTHENTICATE_CHUNK_SIZE s))
+  end.
+Definition auth_gen (s : str) : list str := auth_gen_aux (S (length s)) s.
+
 Definition send_chunks (s : st) (chunks : list str) : R :=
   fold_left (fun (r : R) ch => r >>> fun s => emit s (SendCred ch (g_acked s))) chunks (ret s).
 
@@ -540,10 +557,82 @@ Fixpoint run_msgs (c : cfg) (s : st) (ms : list inmsg) : st * list outev :=
               let '(s2, o2) := run_msgs c s1 r in (s2, o1 ++ o2)
   end.
 
+(* ---- a protocol-conformant server as an executable strategy (for the liveness clause) ----
+   The server looks at what the bot sent in the last round and answers every
+   obligation: CAP LS -> the LS reply (multi-line, then the final line);
+   CAP REQ :line -> ACK or NAK of exactly that line; AUTHENTICATE MECH ->
+   AUTHENTICATE + / 904 / 908 then 904; the final chunk of a payload -> 903 or
+   904; AUTHENTICATE * -> 906; CAP END -> the welcome burst ending in 376 or
+   422.  A server without capability negotiation ignores all of that and sends
+   the welcome burst after USER.  The choices come from a list of numbers, one
+   per bot output. *)
+Definition s_ACK : str := [65;67;75].           Definition s_NAK : str := [78;65;75].
+Record srv := Srv {
+  sv_cap : bool;                (* supports capability negotiation *)
+  sv_ls : list str;             (* the CAP LS reply, one capability string per line; the last one is the final line *)
+  sv_motd : bool                (* 001 375 372 376, or 001 422 *)
+}.
+Definition welcome (motd : bool) : list inmsg :=
+  if motd then [INum 1 [s_STAR]; INum 375 [s_STAR]; INum 372 [s_STAR]; INum 376 [s_STAR]] else [INum 1 [s_STAR]; INum 422 [s_STAR]].
+Fixpoint ls_reply (lines : list str) : list inmsg :=
+  match lines with
+  | [] => [ICap [s_STAR; s_LS; []]]
+  | [l] => [ICap [s_STAR; s_LS; l]]
+  | l :: r => ICap [s_STAR; s_LS; s_STAR; l] :: ls_reply r
+  end.
+Definition final_chunk (ch : str) : bool := negb (Nat.eqb (length ch) gen.T08.AUTHENTICATE_CHUNK_SIZE).
+
+Definition answer1 (v : srv) (n : N) (o : outev) : list inmsg :=
+  if sv_cap v then
+    match o with
+    | Send cmd args =>
+        if seq_eqb cmd s_CAP then
+          match args with
+          | sub :: rest =>
+              if seq_eqb sub s_LS then ls_reply (sv_ls v)
+              else if seq_eqb sub s_REQ then
+                match rest with line :: _ => [ICap [s_STAR; if N.even n then s_ACK else s_NAK; line]] | [] => [] end
+              else if seq_eqb sub s_END then welcome (sv_motd v)
+              else []
+          | [] => []
+          end
+        else if seq_eqb cmd s_AUTH then
+          match args with
+          | a :: _ =>
+              if seq_eqb a s_STAR then [INum 906 [s_STAR]]
+              else if N.eqb (n mod 3) 0 then [IAuth [s_PLUS] true true]
+              else if N.eqb (n mod 3) 1 then [INum 904 [s_STAR]]
+              else [INum 908 [s_STAR; s_plain]; INum 904 [s_STAR]]
+          | [] => []
+          end
+        else []
+    | SendCred ch _ => if final_chunk ch then [INum (if N.even n then 903 else 904) [s_STAR]] else []
+    | _ => []
+    end
+  else
+    match o with
+    | Send cmd _ => if seq_eqb cmd s_USER then welcome (sv_motd v) else []
+    | _ => []
+    end.
+
+Fixpoint answer_batch (v : srv) (choices : list N) (batch : list outev) : list inmsg :=
+  match batch with
+  | [] => []
+  | o :: r => answer1 v (hd 0 choices) o ++ answer_batch v (tl choices) r
+  end.
+
+(* the strategy: history = the bot's output batches, newest first; the j-th output overall uses the j-th choice *)
+Definition strategy (v : srv) (choices : list N) (hist : list (list outev)) : list inmsg :=
+  match hist with
+  | [] => []
+  | batch :: older => answer_batch v (skipn (length (concat older)) choices) batch
+  end.
+
 (* ---- wire ---- *)
 Definition gOS (v : value) : option str := gO gS v.
+(* the credentials arrive as the base64 strings; the chunking is the model's *)
 Definition gCfg (v : value) : cfg :=
-  Cfg (gLS (nth_v 0 v)) (gB (nth_v 1 v)) (gLS (nth_v 2 v)) (gLS (nth_v 3 v)) (gLS (nth_v 4 v))
+  Cfg (gLS (nth_v 0 v)) (gB (nth_v 1 v)) (gLS (nth_v 2 v)) (auth_gen (gS (nth_v 3 v))) (auth_gen (gS (nth_v 4 v)))
       (gO gLS (nth_v 5 v)) (gB (nth_v 6 v)) (gB (nth_v 7 v)) (gB (nth_v 8 v)) (gS (nth_v 9 v)) (gZ (nth_v 10 v)).
 Definition gState (v : value) : st :=
   St (gN (nth_v 0 v))
@@ -578,13 +667,37 @@ Definition gMsg (v : value) : inmsg :=
 Definition visible (o : outev) : bool := match o with GReq _ _ _ => false | GEnd _ _ _ => false | _ => true end.
 Definition vExn (e : option exn) : value := match e with None => L [] | Some x => L [I (exn_code x)] end.
 
+(* the conformant-server strategy on the wire: outputs as the server sees them, messages as it sends them *)
+Definition gSrv (v : value) : srv := Srv (gB (nth_v 0 v)) (gLS (nth_v 1 v)) (gB (nth_v 2 v)).
+Definition gOut (v : value) : outev :=
+  match gN (nth_v 0 v) with
+  | 0 => Send (gS (nth_v 1 v)) (gLS (nth_v 2 v))
+  | 4 => SendCred (gS (nth_v 1 v)) true
+  | 1 => Reconnect None (gB (nth_v 2 v))
+  | 2 => Die
+  | _ => StoreSts [] []
+  end.
+Definition vMsg (m : inmsg) : value :=
+  match m with
+  | ICap args => L [I 0; vLS args]
+  | IAuth args b e => L [I 1; vLS args; vB b; vB e]
+  | INum code args => L [I 2; I (Z.of_N code); vLS args]
+  | IError args => L [I 3; vLS args]
+  | IPing args => L [I 4; vLS args]
+  | IReset => L [I 5]
+  end.
+
 (* run (0 (cfg state msg)) -> (state' outputs exn)     one step from a snapshot
-   run (1 (policy parseDuration)) -> () | (port)        parseStsPolicy *)
+   run (1 (policy parseDuration)) -> () | (port)        parseStsPolicy
+   run (5 (srv choices history)) -> messages             the conformant-server strategy
+   run (6 string) -> chunks                              authenticate_generator(string, base64ify=False) *)
 Definition run (v : value) : value :=
   let p := nth_v 1 v in
   match gN (nth_v 0 v) with
   | 0 => let '(s', o, e) := step (gCfg (nth_v 0 p)) (gState (nth_v 1 p)) (gMsg (nth_v 2 p)) in
          L [vState s'; L (map vOut (filter visible o)); vExn e]
   | 1 => vO (fun pd => L [I (fst pd); I (snd pd)]) (parseStsPolicy2 (gS (nth_v 0 p)) (gB (nth_v 1 p)))
+  | 6 => vLS (auth_gen (gS p))
+  | 5 => L (map vMsg (strategy (gSrv (nth_v 0 p)) (map gN (gL (nth_v 1 p))) (map (fun b => map gOut (gL b)) (gL (nth_v 2 p)))))
   | _ => L []
   end.
